@@ -24,6 +24,7 @@ case "$prop" in
   C18) eng=peer ;;
   C19) eng=v2 ;;
   C20) eng=filters ;;
+  X01) eng=connmgr ;;  # supplementary specification (no listed property): connection manager
   *) echo "unknown property $prop" >&2; exit 2 ;;
 esac
 export GOFLAGS=-mod=mod GOPROXY=off
